@@ -74,6 +74,76 @@ func amf0Tree(r *h.Rand, depth int) amf0.Amf0 {
 	}
 }
 
+// rtmpChunk: one chunk written field by field (fmt 0..3 header of the given fields, optional extended timestamp).
+func rtmpChunk(fmtb, cid int, ts, length, typ, sid uint32, ext bool, payload []byte) []byte {
+	var b []byte
+	switch {
+	case cid < 64:
+		b = append(b, byte(fmtb<<6|cid))
+	case cid < 320:
+		b = append(b, byte(fmtb<<6), byte(cid-64))
+	default:
+		b = append(b, byte(fmtb<<6|1), byte((cid-64)&0xff), byte((cid-64)>>8))
+	}
+	t := ts
+	if ext {
+		t = 0xffffff
+	}
+	if fmtb <= 2 {
+		b = append(b, byte(t>>16), byte(t>>8), byte(t))
+	}
+	if fmtb <= 1 {
+		b = append(b, byte(length>>16), byte(length>>8), byte(length), byte(typ))
+	}
+	if fmtb == 0 {
+		b = append(b, byte(sid), byte(sid>>8), byte(sid>>16), byte(sid>>24))
+	}
+	if ext {
+		b = append(b, byte(ts>>24), byte(ts>>16), byte(ts>>8), byte(ts))
+	}
+	return append(b, payload...)
+}
+
+// rtmpChunkSeeds: chunk streams written at the chunk level, most of them breaking one rule of the chunk protocol in
+// the middle of a message (the reader keeps per-chunk-stream state between chunks: that is where a byte string can
+// drive it somewhere its checks did not foresee): a continuation chunk with a type-0/1 header announcing another
+// length (smaller than what is already buffered, zero, larger, 2^24-1), another type or stream id; headers of type
+// 1/2/3 on a chunk stream never seen; extended timestamps appearing and disappearing between the chunks of a message;
+// two chunk streams interleaved while one of them changes its mind.
+func rtmpChunkSeeds(r *h.Rand) [][]byte {
+	var out [][]byte
+	pl := func(n int) []byte { return make([]byte, n) }
+	for _, L := range []uint32{129, 200, 300, 1000} {
+		for _, cid := range []int{3, 64, 320} {
+			first := rtmpChunk(0, cid, 10, L, 9, 1, false, pl(128))
+			for _, L2 := range []uint32{L - 100, 1, 0, 127, 128, L - 1, L + 1, L + 100, 0xffffff} {
+				rest := int(L2) - 128
+				if rest < 0 || rest > 128 {
+					rest = r.Pick(0, 1, 72, 128)
+				}
+				out = append(out, append(append([]byte(nil), first...), rtmpChunk(1, cid, 0, L2, 9, 1, false, pl(rest))...))
+				out = append(out, append(append([]byte(nil), first...), rtmpChunk(0, cid, 10, L2, 9, 1, false, pl(rest))...))
+			}
+			out = append(out, append(append([]byte(nil), first...), rtmpChunk(1, cid, 0, L, 8, 1, false, pl(int(L)-128))...))
+			out = append(out, append(append([]byte(nil), first...), rtmpChunk(2, cid, 5, 0, 0, 0, false, pl(int(L)-128))...))
+			out = append(out, append(append([]byte(nil), first...), rtmpChunk(3, cid, 0x1000000, 0, 0, 0, true, pl(int(L)-128))...))
+			other := rtmpChunk(0, cid+1, 20, 200, 8, 1, false, pl(128))
+			out = append(out, append(append(append([]byte(nil), first...), other...), rtmpChunk(1, cid, 0, 50, 9, 1, false, pl(50))...))
+		}
+	}
+	for f := 1; f <= 3; f++ {
+		for _, cid := range []int{2, 3, 63, 64, 319, 320, 65599} {
+			out = append(out, rtmpChunk(f, cid, 1, 10, 20, 0, false, pl(10)))
+			out = append(out, rtmpChunk(f, cid, 0x1000000, 10, 20, 0, true, pl(10)))
+		}
+	}
+	extFirst := rtmpChunk(0, 4, 0x1000000, 300, 9, 1, true, pl(128))
+	out = append(out, append(append([]byte(nil), extFirst...), rtmpChunk(3, 4, 0, 0, 0, 0, false, pl(128))...))
+	out = append(out, append(append([]byte(nil), extFirst...), rtmpChunk(3, 4, 0x1000000, 0, 0, 0, true, pl(128))...))
+	out = append(out, append(append([]byte(nil), extFirst...), rtmpChunk(3, 4, 0x1000001, 0, 0, 0, true, pl(128))...))
+	return out
+}
+
 func init() {
 	regDecoder(decoder{name: "amf0.Discovery+Unmarshal", maxLen: 65536,
 		run: func(b []byte) {
@@ -144,7 +214,7 @@ func init() {
 				p.WritePacket(uc, 0)
 				out = append(out, w.Bytes())
 			}
-			return out
+			return append(out, rtmpChunkSeeds(r)...)
 		}})
 	regDecoder(decoder{name: "rtmp.Handshake.Read", maxLen: 4096,
 		run: func(b []byte) {
